@@ -19,7 +19,8 @@ rule = ("scripts = 'e new fb|nofb' followed by dispatcher ops (set/cset/clear/cl
 assumptions = [
     "handlers do not re-enter the dispatcher; a handler answers with an int (flags or negative error) and may clear the event id",
     "malloc never fails in the harness runs; the dispatcher has no fallback reply context (_ctx = NULL)",
-    "messages are one contiguous part; command separators are 0 or a graphic character (the quoting tokenizer of mpt_message_argv is outside the model: bad-op)",
+    "messages are one contiguous part (fragmented messages belong to C17)",
+    "for separators that are not graphic characters (white-space splitting with quotes) the spec accepts any non-empty prefix of the payload as the command text; the model mirrors mpt_memtok and is compared with the code",
     "the fallback is the harness handler (registration 0) or none; the library's built-in unknownEvent fallback is replaced right after mpt_dispatch_init",
     "a reserved element is activated by the caller (handler + argument set) before anything else happens",
     "mpt_hash is the default djb2 variant (no _mpt_hash_set call)",
@@ -109,7 +110,7 @@ def _boundary():
     texts = ["61", "6162", "ff", "80", "7f80ff", "6100", "610062", "00", "0061", "20", "2020", "2061", "09200a61", "3a", "3a61", "613a", "613a62",
              "20203a", "612062", "e4f6fc", "61" * 120, "61" * 130]
     for t in texts:
-        for hdr in ("0000", "0400", "043a", "0061", "0100", "ff3a", "0441", "047e", "0421"):
+        for hdr in ("0000", "0400", "043a", "0061", "0100", "ff3a", "0441", "047e", "0421", "0420", "0409", "04ff", "0401", "047f"):
             msg = bytes.fromhex(hdr + t)
             lines = ["e new fb"]
             # register the ids the plausible readings hash to
@@ -117,11 +118,24 @@ def _boundary():
             sep = msg[1] if msg[0] == 4 else 0
             if sep == 0:
                 txt = pay.split(b"\0")[0]
+            elif not (0x21 <= sep <= 0x7e):
+                txt = pay.lstrip(b" \t\n\v\f\r").split(b"\0")[0].split(b" ")[0]
             else:
                 txt = pay.lstrip(b" \t\n\v\f\r").split(bytes([sep]))[0]
             lines += ["e set %d" % djb2(txt), "e hash %s 2" % msg.hex(), "e hash %s -3" % msg.hex(), "e clear %d" % djb2(txt),
                       "e hash %s 1z" % msg.hex(), "e fini", "e hash %s 0" % msg.hex()]
             out.append(("b:hash:%s:%s" % (hdr, t[:12]), lines))
+    # white-space separated arguments with quotes and backslashes (mpt_memtok)
+    quoted = ["6120 62", "2761206227 2063", "2261 2722 62", "27615c27 6227 63", "2761", "61 27 62", "5c2761 62", "61096200", "0c61", "0c", "200c",
+              "610b62", "610c62", "2227 2722 78", "615c 62", "275c5c27 61", "61002062", "27610027 62", "0061", "2000", "22 22", "6127 6227"]
+    for q in quoted:
+        pay = bytes.fromhex(q.replace(" ", "20"))
+        for hdr in ("0420", "0409", "0480", "0401"):
+            msg = bytes.fromhex(hdr) + pay
+            ids = sorted({djb2(pay[:k]) for k in range(1, len(pay) + 1)} | {djb2(pay.lstrip(b" \t\n\v\f\r")[:k]) for k in range(1, len(pay) + 1)})
+            lines = ["e new fb"] + ["e set %d" % i for i in ids[:12]] + ["e hash %s 2" % msg.hex(), "e hash %s -3" % msg.hex(), "e clearall",
+                                                                      "e hash %s 1z" % msg.hex(), "e fini", "e hash %s 0" % msg.hex()]
+            out.append(("b:quote:%s:%s" % (hdr, pay.hex()[:16]), lines))
     for m in ("-", "00", "04", "0000", "043a", "04ff61", "040161", "042061", "047f61"):
         out.append(("b:hashshort:" + m, ["e new fb", "e hash %s 1" % m, "e new nofb", "e hash %s 1" % m]))
     # default id bookkeeping chains
@@ -131,7 +145,7 @@ def _boundary():
     # malformed op lines (both sides must answer bad-op)
     out.append(("b:badop", ["e new fb", "e set", "e set -1", "e set 01", "e set 18446744073709551616", "e emit id 1", "e emit id 1 +1",
                             "e emit id 1 -0", "e emit id 1 2147483648", "e emit id 1 -2147483649", "e emit msg 0g 1", "e emit msg 012 1",
-                            "e hash 042061 1", "e hash 047f61 1", "e hash zero:3 1", "e reserve x", "e fini now", "e new", "e new maybe",
+                            "e hash zero:3 1", "e reserve x", "e fini now", "e new", "e new maybe",
                             "q push 00", "e emit none z", "e emit id 1 1zz", "e set 1"]))
     return out
 
@@ -164,8 +178,8 @@ def _random(tier, seed, scale):
                 lines.append("e emit none %s" % res)
             elif kind == "hash":
                 t = r.choice(texts)
-                hdr = r.choice([b"\0\0", b"\x04\0", b"\x04:", b"\x04;", b"\x01\x05"])
-                tail = r.choice([b"", b"\0", b":rest", b"\0junk", b";x"])
+                hdr = r.choice([b"\0\0", b"\x04\0", b"\x04:", b"\x04;", b"\x01\x05", b"\x04 ", b"\x04\t", b"\x04\xff"])
+                tail = r.choice([b"", b"\0", b":rest", b"\0junk", b";x", b" arg", b"' q'", b"\\ x"])
                 lead = r.choice([b"", b"", b" ", b"\t "]) if hdr[0] == 4 and hdr[1] else b""
                 lines.append("e hash %s %s" % ((hdr + lead + t + tail).hex(), res))
             elif kind == "reserve":
